@@ -60,6 +60,22 @@ def gen_regex(rng, zero_ok):
         s = '(?:%s)$' % s if '|' in s else s + '$'
     if zero_ok and rng.random() < 0.08:
         s = rng.choice(['$', 'x*', 'a*$', '(?:)', 'b?'])
+    if rng.random() < 0.12:
+        # assertions that look outside the span they match: under a window they must see the window only
+        # (the searched text is the last W characters), without a window the whole pending text
+        k = rng.random()
+        if k < 0.2:
+            s = '^' + s
+        elif k < 0.4:
+            s = '\\b' + s
+        elif k < 0.6:
+            s = '(?<=%s)%s' % (rng.choice(['a', 'b', 'c', 'ab', '\\n']), s)
+        elif k < 0.75:
+            s = '(?<!%s)%s' % (rng.choice(['a', 'ab', 'c']), s)
+        elif k < 0.9:
+            s = '%s(?=%s)' % (s, rng.choice(['a', 'bc', 'c', 'ab']))
+        else:
+            s = '%s(?!%s)' % (s, rng.choice(['a', 'b']))
     return s
 
 
@@ -348,9 +364,11 @@ def evaluate(r, clauses=None):
 
     # interleave setbuf ops with calls by op index
     setbufs = {}
+    setbuf_at = {}
     for o in r.ops:
         if o['op'] == 'setbuf' and o['out'] == 'ret':
             setbufs[o['k']] = r.conv(r.scn['ops'][o['k']]['v'])
+            setbuf_at[o['k']] = o.get('c0', 0)
     applied = set()
     ci = 0
     calls = r.calls
@@ -362,6 +380,8 @@ def evaluate(r, clauses=None):
         for k in sorted(setbufs):
             if k < call['op'] and k not in applied:
                 applied.add(k)
+                # text that arrived (asyncio path, no call outstanding) before the assignment is replaced by it
+                prev_c1 = max(prev_c1, min(setbuf_at.get(k, prev_c1), call['c0']))
                 pend = setbufs[k]
                 model.set_pending(setbufs[k])
         last_op = call['op']
@@ -394,6 +414,17 @@ def evaluate(r, clauses=None):
         res = model.call(plist, exact, W, chunks)
         ti = plist.index(TIMEOUT) if TIMEOUT in plist else -1
         ei = plist.index(EOF) if EOF in plist else -1
+        if kind == 'cancel':
+            # an awaited call abandoned from outside: it must not have consumed anything
+            if res['kind'] == 'match':
+                if V('C03.missed', 'call was still pending when it was cancelled although pattern %d occurs in the searchable '
+                     'pending text after %d of %d reads' % (res['index'], res['j'], len(chunks)), call, model=_res_brief(res)):
+                    return out
+                return out
+            pend = E
+            if late_text:
+                model.set_pending(model.pending + late_text)
+            continue
         is_to = (kind == 'ret' and val == ti and ti >= 0 and call['after'] is TIMEOUT) or \
                 (kind == 'exc' and isinstance(val, TIMEOUT))
         is_eof = (kind == 'ret' and val == ei and ei >= 0 and call['after'] is EOF) or \
@@ -640,6 +671,6 @@ def _call_brief(c):
     oc = c['outcome']
     return {'api': c['api'], 'plist': pl, 'timeout': c['timeout'], 'sws': c['sws'],
             'inst_sws': c['inst_sws'], 'op': c['op'], 'reads': c['c1'] - c['c0'],
-            'outcome': (oc[0], oc[1] if oc[0] == 'ret' else type(oc[1]).__name__),
+            'outcome': (oc[0], oc[1] if oc[0] in ('ret', 'cancel') else type(oc[1]).__name__),
             'before': c['before'], 'after': c['after'] if not isinstance(c['after'], type) else c['after'].__name__,
             'buffer': c['buffer'], 'dur_us': c['t1'] - c['t0']}
